@@ -18,7 +18,7 @@ import time
 
 ID = 'C18'
 LEVEL = 'model_checking'
-RULE = ('explicit enumeration of ALL histories of length <= depth over 9 (deck, options) items chosen to collide '
+RULE = ('explicit enumeration of ALL histories of length <= depth over 10 (deck, options) items chosen to collide '
         '(identical cell / surface numbers with different geometry, universe and lattice decks, a deck that '
         'fails midway, the same deck under other options); each history runs in one fresh interpreter and every '
         'step is compared byte-for-byte (header removed) with the golden output of the item from a fresh '
@@ -147,6 +147,24 @@ ITEMS['i'] = ("""deck i: several implicit surfaces 1000*cell+surf whose conversi
 4 so 0.5
 9 so 30
 
+""", [])
+ITEMS['j'] = ("""deck j: every kind of cell parameter, several particle types, keywords that are prefixes of one another
+1 1 -2.7 -1 imp:n=1 imp:p=2 unc:n=1 vol=4.2
+2 2 -7.8 1 -2 imp:n,p=1 nonu=1 tmp=2.53e-8 pwt=1
+3 1 -2.70 2 -3 u=0 imp:n=1 ext:n=0 fcl:n=0 elpt:n=0.1
+4 3 0.05 3 -4 imp:e=1 imp:n=0 wwn1:n=0.5 dxc1:n=1 pd1=0.5
+5 like 4 but mat=2 rho=-7.80 trcl=(20 0 0) cosy=1 bflcl=0
+6 0 4 imp:n=0 imp:p=0 imp:e=0
+
+1 so 1
+2 so 2
+3 so 3
+4 so 4
+
+m1 13027 1
+m2 26056 0.9 26054 0.1
+m3 1001 2 8016 1
+mode n p e
 """, [])
 NAMES = sorted(ITEMS)
 
